@@ -116,6 +116,34 @@ fn pair_valid() -> BS<(String, String)> {
     wunion(vec![(2, generated), (3, consts)])
 }
 
+/// formats that use (nearly) all of the 16 token slots and whose input parses up to the last field: well-behaved
+/// tokens, single ASCII separators, the last token possibly a name, the input possibly continuing after the last field
+fn long_pair_valid() -> BS<(String, String)> {
+    const NUM: [&str; 7] = ["Y", "m", "d", "H", "M", "S", "f"];
+    const LAST: [&str; 11] = ["Y", "m", "d", "H", "M", "S", "f", "B", "b", "A", "a"];
+    const SEP: [&str; 6] = [" ", "-", ":", "T", "/", "."];
+    const TAIL: [&str; 10] = ["", "", " 02", " ", "-", "x", " UTC", ".5", "\u{a0}", " 02 03"];
+    (prop_oneof![1 => 13usize..=15, 3 => Just(16usize)], prop::collection::vec((0usize..7, 0usize..6), 16), 0usize..11, 0usize..10, ns1900_0001_9999(), 0usize..9)
+        .prop_map(|(n, items, last, tail, g, sc)| {
+            let gr = greg_of_ns1900(g);
+            let mut f = String::new();
+            let mut s = String::new();
+            for i in 0..n {
+                let t = if i + 1 == n { LAST[last] } else { NUM[items[i].0] };
+                f.push('%');
+                f.push_str(t);
+                s.push_str(&render_any(t, &gr, sc));
+                if i + 1 < n {
+                    f.push_str(SEP[items[i].1]);
+                    s.push_str(SEP[items[i].1]);
+                }
+            }
+            s.push_str(TAIL[tail]);
+            (f, s)
+        })
+        .boxed()
+}
+
 fn iso_valid() -> BS<String> {
     (ns1900_0001_9999(), any::<bool>(), 0usize..=9, 0u8..4, 0u32..24, 0u32..60, proptest::option::of(0usize..9))
         .prop_map(|(g, sp, fl, tz, oh, om, suffix)| {
@@ -195,6 +223,7 @@ fn word_valid() -> BS<String> {
 fn valid_case() -> BS<Case> {
     wunion(vec![
         (4, pair_valid().prop_map(|(f, s)| Case { s, f, must_reject: false }).boxed()),
+        (1, long_pair_valid().prop_map(|(f, s)| Case { s, f, must_reject: false }).boxed()),
         (3, (iso_valid(), 0usize..12).prop_map(|(s, k)| Case { s, f: CONST_FORMATS[k].to_string(), must_reject: false }).boxed()),
         (1, (extreme_year_valid(), any::<bool>()).prop_map(|(s, t)| Case { f: if t { "%Y-%m-%dT%H:%M:%S".to_string() } else { "%Y-%m-%dT%H:%M:%S %T".to_string() }, s, must_reject: false }).boxed()),
         (2, (numeric_valid(), 0usize..12).prop_map(|(s, k)| Case { s, f: CONST_FORMATS[k].to_string(), must_reject: false }).boxed()),
